@@ -848,6 +848,7 @@ RULES = {
         ("$s . starts_with ( '+' )", "__starts_with_byte ( $s , b'+' )"),
         ("$s . starts_with ( '_' )", "__starts_with_byte ( $s , b'_' )"),
         ("for b in s . bytes ( ) { $$body }", "{ let mut i__ = 0 ; while i__ < s . len ( ) { let b = s [ i__ ] ; i__ += 1 ; $$body } }"),
+        ("str :: from_utf8 ( buf ) . ok ( ) ?", "__from_utf8_ok ( buf ) ?"),
     ]),
     "R14n": Rule("R14n", "debug_assert_ne!(..); -> (dropped)", "debug_assert_ne ! ( $$c ) ;", ""),
     "R10n": Rule("R10n", "for _ in A..E { BODY } -> { let mut i__ = A; let e__ = E; while i__ < e__ { i__ += 1; BODY } }  (std: Range yields A, .., E-1; bounds evaluated once)",
